@@ -26,8 +26,15 @@ Out(run, w) == run.res[w] = "Locked" \/ run.err[w]      \* err: the answer was a
 Verdict(run) ==
     LET ids == {"A", "B"}
         counted == {w \in ids : ~Out(run, w)}
-        Never(a, b) == FALSE
-        lin == ExplainsFrom(run.init, counted, run.ops, run.res, Never, run.final)
+        Never(x, y) == FALSE
+        hasC == run.ops.C.t # "none"
+        \* the overlapped pair is judged against the state it left behind (`mid' = `final'
+        \* when there is no follow-up operation) ...
+        lin == ExplainsFrom(run.init, counted, run.ops, run.res, Never, run.mid)
+        \* ... and the follow-up operation C, issued after both had returned, sequentially
+        \* from that state
+        cOK == ~hasC \/ Out(run, "C")
+               \/ LET s == SeqApply(run.mid, run.ops.C) IN s.r = run.res.C /\ s.m = run.final
         a == run.ops.A   b == run.ops.B
         types == run.pair          \* "put-put" | "del-put" | "del-del" (sorted, from the harness)
         same == IF a.n = b.n THEN "same" ELSE "diff"
@@ -35,9 +42,11 @@ Verdict(run) ==
         clause ==
             IF ~run.opens \/ ~run.fsck THEN "repository-damaged"
             ELSE IF run.stuck THEN "stuck"
-            ELSE IF lin THEN "ok"
+            ELSE IF lin /\ cOK /\ ~run.views_ok THEN "stale-view-after-overlap"
+            ELSE IF lin /\ cOK THEN "ok"
+            ELSE IF lin THEN "wrong-answer-after-overlap"
             ELSE IF bothok /\ a.n = b.n /\ a.cond # 0 /\ a.cond = b.cond THEN "both-conditional-succeed"
-            ELSE IF ~UidUniqueIn(run.final) THEN "duplicate-uid"
+            ELSE IF ~UidUniqueIn(run.mid) THEN "duplicate-uid"
             ELSE IF bothok THEN "lost-update"
             ELSE "not-linearizable"
         \* the finding is identified by store kind, operation kinds, same/different name, the
